@@ -89,7 +89,53 @@ def all_pids(tree):
     return out
 
 
+# ------------------------------------------------------------------ scripted sudo (NEVER the real one)
+class SudoWorld(object):
+    """replaces the `subprocess` name used by `rebench.denoise_client`: `sudo -n <denoise> --json kill <pid>`
+    is recorded and, when it is scripted to succeed, the privileged side is played in-process by the real
+    `rebench.denoise._kill` (whose `pgrep` / `kill` are the scripted ones of the active KillWorld / layer)"""
+
+    STDOUT = subprocess.STDOUT
+    PIPE = subprocess.PIPE
+    CalledProcessError = subprocess.CalledProcessError
+
+    def __init__(self, outcomes=None):
+        self.calls = []
+        self.bad = []
+        self.outcomes = list(outcomes or [])     # per call: 'ok' | 'fail' | 'nosudo'
+
+    def check_output(self, cmd, stderr=None, env=None, **kw):
+        from rebench import denoise as dn
+        from rebench.denoise import paths
+        self.calls.append(list(cmd))
+        if len(cmd) != 6 or cmd[:2] != ['sudo', '-n'] or cmd[2] != paths.get_denoise() or cmd[3:5] != ['--json', 'kill']:
+            # nothing is ever executed; an unexpected command behaves like a sudo that refuses
+            self.bad.append(list(cmd))
+            raise subprocess.CalledProcessError(1, cmd, b'scripted sudo: unexpected command')
+        outcome = self.outcomes.pop(0) if self.outcomes else 'ok'
+        if outcome == 'nosudo':
+            raise FileNotFoundError(2, 'No such file or directory', 'sudo')
+        if outcome == 'fail':
+            raise subprocess.CalledProcessError(1, cmd, b'sudo: a password is required')
+        dn._kill(cmd[5])
+        return b'{}'
+
+    @contextlib.contextmanager
+    def active(self):
+        from rebench import denoise_client as dc
+        saved = dc.subprocess
+        dc.subprocess = self
+        try:
+            yield self
+        finally:
+            dc.subprocess = saved
+
+
 # ------------------------------------------------------------------ stub worker thread for the decision table
+class WouldBlockForEver(Exception):
+    """the real code would wait for ever here (observed instead of waited for)"""
+
+
 class StubThread(object):
     """stands in for `_SubprocessThread`: what the join does and what the worker's fields say is scripted"""
     cfg = None
@@ -106,7 +152,15 @@ class StubThread(object):
         self.stderr_result = None
 
     def start(self):
-        pass
+        # an interrupt that arrives while run() is still inside thread.start(): before the worker was
+        # launched (no thread, no child) or just after (the worker will start the child)
+        if self.c.get('start_interrupt'):
+            self.ended = True
+            raise KeyboardInterrupt()
+
+    @property
+    def ident(self):
+        return None if self.c.get('start_interrupt') == 'before-launch' else 4711
 
     def join(self, timeout=None):
         c = self.c
@@ -134,11 +188,15 @@ class StubThread(object):
         return c['alive_reported']
 
     def get_pid(self):
+        if self.c.get('start_interrupt') == 'before-launch':
+            raise WouldBlockForEver('get_pid() on a worker that was never launched')
         return self.c['root']
 
     @property
     def returncode(self):
         c = self.c
+        if c.get('start_interrupt') == 'before-launch':
+            return None          # a thread that never ran has no result either
         return None if (c['child_running'] or c['worker_raised']) else 0
 
     @property
@@ -146,21 +204,22 @@ class StubThread(object):
         return OSError(2, 'scripted') if self.c['worker_raised'] else None
 
 
-def run_decision(sit, tree, kill_tree, uses_sudo):
-    """the real `swt.run` on a stub thread; returns the observed trace"""
+def run_decision(sit, tree, kill_tree, uses_sudo, sudo_outcomes=None):
+    """the real `swt.run` on a stub thread; returns the observed trace. With `uses_sudo` the real
+    `deliver_kill_signal` runs against a scripted sudo."""
     world = KillWorld(tree_children(tree))
+    sudo = SudoWorld(sudo_outcomes)
     clock = [1000.0]
     cfg = dict(sit)
     cfg.update({'root': tree['pid'], 'clock': clock, 't0': clock[0]})
     StubThread.cfg = cfg
-    saved = (swt._SubprocessThread, swt.time, swt.deliver_kill_signal)
+    saved = (swt._SubprocessThread, swt.time)
     swt._SubprocessThread = StubThread
     swt.time = lambda: clock[0]
-    swt.deliver_kill_signal = world.sudo_kill
     keep_alive = []
     trace = []
     try:
-        with world.active():
+        with world.active(), sudo.active():
             try:
                 r = swt.run('exe arg', env={}, cwd=None, shell=True, kill_tree=kill_tree, timeout=sit['timeout'],
                             keep_alive_output=lambda s: keep_alive.append(s), uses_sudo=uses_sudo)
@@ -172,13 +231,20 @@ def run_decision(sit, tree, kill_tree, uses_sudo):
             except OSError:
                 end = ['raise', 'worker']
                 ret = None
+            except WouldBlockForEver as e:
+                end = ['hangs', str(e)]
+                ret = None
     finally:
-        swt._SubprocessThread, swt.time, swt.deliver_kill_signal = saved
+        swt._SubprocessThread, swt.time = saved
     st = StubThread.last
-    kills = world.sudo_kills if uses_sudo else world.kills
+    if uses_sudo:
+        kills = [int(c[5]) if len(c) > 5 and c[5].isdigit() else -1 for c in sudo.calls]
+    else:
+        kills = world.kills
     trace = [['kill', p] for p in kills] + [['join']] * st.kill_phase_joins + [end]
     return {'trace': trace, 'main_joins': st.main_joins, 'keep_alive': len(keep_alive), 'ret': ret,
-            'wrong_channel': bool(world.kills if uses_sudo else world.sudo_kills)}
+            'sudo_calls': [c[3:] for c in sudo.calls], 'privileged_kills': list(world.kills) if uses_sudo else [],
+            'wrong_channel': bool(sudo.calls) if not uses_sudo else False}
 
 
 # ------------------------------------------------------------------ real worker thread, scripted child
